@@ -2,7 +2,9 @@
 from __future__ import annotations
 
 import copy
+import json
 import math
+import random
 import os
 from fractions import Fraction
 
@@ -2321,6 +2323,29 @@ class C07(PropertyCheck):
             # Preloads(regularization_matrix=...): absent / explicit None / the matrix a fresh equal inversion computes
             pre = rng.choice(["absent", "none", "correct", "correct"])
             yield {"tag": f"blocks_{k}_preload_{pre}", "kind": "inversion", "objs": objs, "preload": pre}
+        # 7. (round 7) several linear objects sharing ONE regularization INSTANCE while their meshes differ: each block
+        #    must still be the matrix of its own object (a memo keyed by the regularization instance hands every later
+        #    object the first one's block).  Own rng, so the streams below keep their random sequence.
+        rs = random.Random(repr(rng.getstate()[1][:8]))
+        for _ in range(14 if quick else 120):
+            k = rs.randint(2, 4)
+            name = rs.choice(RATIONAL_SCHEMES + SPLIT_SCHEMES)
+            args, ss = self._scheme_args(rs, name)
+            objs = []
+            sizes = rs.sample([1, 2, 3, 4, 5], k)  # pairwise different sizes: a foreign block cannot even fit
+            for j in range(k):
+                if j and rs.random() < 0.25:
+                    objs.append({"type": "linear_obj", "params": rs.randint(1, 3)})
+                objs.append({"type": "mapper", "params": sizes[j], "scheme": name, "args": args, "signal_scale": ss,
+                             "mock": self._mock_obj(rs, sizes[j], True, name in SPLIT_SCHEMES)})
+            if rs.random() < 0.5:  # same size, different neighbour tables / signals: the foreign block fits silently
+                n = rs.randint(3, 5)
+                for o in objs:
+                    if o["type"] == "mapper":
+                        o["params"] = n
+                        o["mock"] = self._mock_obj(rs, n, True, name in SPLIT_SCHEMES)
+            yield {"tag": f"blocks_shared_reg_{name}", "kind": "inversion", "objs": objs, "preload": "absent",
+                   "share_reg": True}
         # 8. round 5/6 streams (design note § "Round 5/6 hardening")
         yield from self._gen_decades(rng, quick)
         yield from self._gen_near(rng, quick)
@@ -2570,13 +2595,20 @@ class C07(PropertyCheck):
     def _impl_inversion(self, aa, case):
         objs = []
         blocks = []
+        shared_regs = {}
         for o in case["objs"]:
             if o["type"] == "linear_obj":
                 objs.append(aa.m.MockLinearObj(parameters=o["params"], regularization=None))
                 blocks.append(None)
             else:
-                reg = _make_scheme(aa, o["scheme"], o["args"], o.get("signal_scale"), o.get("arg_type", "float"),
-                                   o.get("defaults", False))
+                key = json.dumps([o["scheme"], o["args"], o.get("signal_scale"), o.get("arg_type", "float"),
+                                  o.get("defaults", False)], default=str)
+                if case.get("share_reg") and key in shared_regs:
+                    reg = shared_regs[key]  # ONE regularization instance for every object with this specification
+                else:
+                    reg = _make_scheme(aa, o["scheme"], o["args"], o.get("signal_scale"), o.get("arg_type", "float"),
+                                       o.get("defaults", False))
+                    shared_regs[key] = reg
                 objs.append(_mock_mapper(aa, o["mock"], regularization=reg))
                 blocks.append(True)
         pre = case.get("preload", "absent")
